@@ -128,6 +128,8 @@ def gen_spec(rng):
         'dhour': int(rng.choice([1, 3, 6, 12, 24])),
         'seed': int(rng.integers(1 << 30)),
         'dlat': 1.0, 'dlon': 1.0, 'lat0': 30.0, 'lon0': -100.0,
+        # a forecast file: the labels carry non-zero forecast hours
+        'forecast': bool(rng.random() < 0.3),
     }
 
 
@@ -177,7 +179,10 @@ def encode(spec):
     if nx > 999 or ny > 999:
         grid = chr(64 + nx // 1000) + chr(64 + ny // 1000)
     for t, when in enumerate(exp['times']):
-        ymdhf = when.strftime('%y%m%d%H') + ' 0'
+        # YYMMDDHH is the valid time; FF the forecast hour it was made with
+        # (0 in archives, growing through a forecast file)
+        ymdhf = when.strftime('%y%m%d%H') + '%2d' % (
+            (t * spec['dhour']) % 100 if spec.get('forecast') else 0)
         recs = []
         levinfo = ''
         for li, lev in enumerate(spec['levels']):
